@@ -23,7 +23,6 @@ import (
 
 	"github.com/krotik/ecal/cli/tool"
 	"github.com/krotik/ecal/parser"
-	"github.com/krotik/ecal/scope"
 )
 
 func init() { register("C08", runC08) }
@@ -308,20 +307,7 @@ func c08failure(r callResult) string {
 // c08eval evaluates a program in a fresh scope with a, b, c bound to numbers; the result is
 // rendered with %v, failures by class only (error / panic / timeout), never by message.
 func c08eval(src string) string {
-	vs := scope.NewScope(scope.GlobalScope)
-	vs.SetValue("a", float64(7))
-	vs.SetValue("b", float64(3))
-	vs.SetValue("c", float64(2))
-	r := guarded(3*time.Second, func() (interface{}, error) { return evalProgram("c08", src, vs, nil) })
-	switch {
-	case r.Panicked:
-		return "<panic>"
-	case r.TimedOut:
-		return "<timeout>"
-	case r.Err != nil:
-		return "<error>"
-	}
-	return fmt.Sprintf("%T:%v", r.Val, r.Val)
+	return c08evalT(src, 3*time.Second)
 }
 
 // c08tokens lexes text and renders the tokens the parser sees as Coq terms.
@@ -352,15 +338,17 @@ func c08tokens(text string) (string, bool) {
 }
 
 type c08state struct {
-	c        *Ctx
-	seenTree map[string]bool
-	files    []c08file
+	c         *Ctx
+	seenTree  map[string]bool
+	files     []c08file
+	untouched []c08case // contents the parser rejects: FormatFiles must leave them byte-identical
 }
 
 type c08file struct {
-	desc c08case
-	t1   *parser.ASTNode
-	p    string
+	desc   c08case
+	t1     *parser.ASTNode
+	p      string
+	capped bool // byte-level family (c08_bytes.go): at most 8 reports per key
 }
 
 func (s *c08state) violate(kind string, refined string, desc c08case, what string) {
@@ -412,6 +400,10 @@ func (s *c08state) one(desc c08case, emitModel bool) {
 		}
 		s.violate("tree-differs", refined, desc,
 			fmt.Sprintf("re-parsing the pretty printed text gives a different tree: %s; printed: %q", d, p))
+		if refined == "raw-multiline-string" {
+			// the recorded deviation must not hide the rest of the tree, idempotence and the result
+			s.behindRawMultiline(desc, t1, t2, p)
+		}
 	} else {
 		// idempotence
 		p2, r3 := c08print(t2)
@@ -431,7 +423,7 @@ func (s *c08state) one(desc c08case, emitModel bool) {
 	}
 	// behaviour
 	if desc.Eval && refined == "" {
-		v1, v2 := c08eval(src), c08eval(p)
+		v1, v2 := c08evalPair(src, p)
 		c.Dist["evaluated"]++
 		if v1 != v2 {
 			k := ""
@@ -447,7 +439,7 @@ func (s *c08state) one(desc c08case, emitModel bool) {
 		}
 	}
 	if len(s.files) < c.Pick(400, 4000) && (c.Evals%5 == 0 || desc.Family == "corpus") {
-		s.files = append(s.files, c08file{desc, t1, p})
+		s.files = append(s.files, c08file{desc: desc, t1: t1, p: p})
 	}
 	// model
 	if !emitModel {
@@ -474,7 +466,7 @@ func (s *c08state) one(desc c08case, emitModel bool) {
 // formatFiles runs the in-place format tool over the collected sources.
 func (s *c08state) formatFiles() {
 	c := s.c
-	if len(s.files) == 0 {
+	if len(s.files) == 0 && len(s.untouched) == 0 {
 		return
 	}
 	dir, err := os.MkdirTemp("", "verif-c08-")
@@ -488,9 +480,16 @@ func (s *c08state) formatFiles() {
 		os.MkdirAll(sub, 0o755)
 		os.WriteFile(filepath.Join(sub, fmt.Sprintf("f%05d.ecal", i)), []byte(f.desc.Source), 0o644)
 	}
+	for i, u := range s.untouched {
+		sub := filepath.Join(dir, fmt.Sprintf("u%d", i%5))
+		os.MkdirAll(sub, 0o755)
+		os.WriteFile(filepath.Join(sub, fmt.Sprintf("u%05d.ecal", i)), []byte(u.Source), 0o644)
+	}
 	os.WriteFile(filepath.Join(dir, "broken.ecal"), []byte("a := ("), 0o644)
 	os.WriteFile(filepath.Join(dir, "other.txt"), []byte("a   :=   1"), 0o644)
-	r := guarded(120*time.Second, func() (interface{}, error) { return nil, tool.FormatFiles(dir, ".ecal") })
+	// the bound grows with the directory (30 ms per file on top of the two minutes)
+	bound := 120*time.Second + time.Duration(len(s.files)+len(s.untouched))*30*time.Millisecond
+	r := guarded(bound, func() (interface{}, error) { return nil, tool.FormatFiles(dir, ".ecal") })
 	if r.Panicked || r.TimedOut || r.Err != nil {
 		c.Violate("formatfiles-fails", "tool.FormatFiles failed on a directory of parseable files: "+c08failure(r),
 			c08case{Family: "formatfiles", Source: "<directory>"})
@@ -504,31 +503,82 @@ func (s *c08state) formatFiles() {
 		c.Violate("formatfiles-touched-other", "FormatFiles rewrote a file with another extension",
 			c08case{Family: "formatfiles", Source: "a   :=   1"})
 	}
+	for i, u := range s.untouched {
+		b, err := os.ReadFile(filepath.Join(dir, fmt.Sprintf("u%d", i%5), fmt.Sprintf("u%05d.ecal", i)))
+		c.Dist["formatfiles_unparsable_files"]++
+		if err != nil {
+			s.capped("formatfiles-lost-file", "file missing after FormatFiles: "+err.Error(), u)
+		} else if string(b) != u.Source {
+			s.capped("formatfiles-touched-unparsable",
+				fmt.Sprintf("FormatFiles rewrote a file whose content the parser rejects; new content: %q", string(b)), u)
+		}
+	}
 	for i, f := range s.files {
+		report := func(key, what string) {
+			if f.capped {
+				s.capped(key, what, f.desc)
+			} else {
+				c.Violate(key, what, f.desc)
+			}
+		}
 		b, err := os.ReadFile(filepath.Join(dir, fmt.Sprintf("d%d", i%7), fmt.Sprintf("f%05d.ecal", i)))
 		c.Dist["formatfiles_files"]++
 		if err != nil {
-			c.Violate("formatfiles-lost-file", "file missing after FormatFiles: "+err.Error(), f.desc)
+			report("formatfiles-lost-file", "file missing after FormatFiles: "+err.Error())
 			continue
 		}
 		t3, r3 := c08parse(string(b))
 		if t3 == nil && c08innerPreComment(f.t1) {
-			c.Violate("precomment-inner-token", "after FormatFiles the file no longer parses", f.desc)
+			report("precomment-inner-token", "after FormatFiles the file no longer parses")
 			continue
 		}
 		if t3 == nil {
-			c.Violate("formatfiles-unparsable", fmt.Sprintf("after FormatFiles the file no longer parses (%s): %q", c08failure(r3), string(b)), f.desc)
+			report("formatfiles-unparsable", fmt.Sprintf("after FormatFiles the file no longer parses (%s): %q", c08failure(r3), string(b)))
 			continue
 		}
-		if d, x, y := c08diff(f.t1, t3, f.t1.Name); d != "" {
+		// keyOf names the class of a difference: the recorded deviations, then a changed string
+		// VALUE (its own key), then any other difference
+		keyOf := func(x, y *parser.ASTNode) string {
 			key := c08class(f.t1, x, y)
 			if key == "" && c08innerPreComment(f.t1) {
 				key = "precomment-inner-token"
 			}
+			if key == "" && c08isStringValueChange(x, y) {
+				key = "formatfiles-string-value-differs"
+			}
 			if key == "" {
 				key = "formatfiles-tree-differs"
 			}
-			c.Violate(key, "after FormatFiles the file parses to a different tree: "+d, f.desc)
+			return key
+		}
+		key := ""
+		d, x, y := c08diff(f.t1, t3, f.t1.Name)
+		if d != "" {
+			key = keyOf(x, y)
+			report(key, "after FormatFiles the file parses to a different tree: "+d)
+		}
+		same := d == ""
+		if key == "raw-multiline-string" {
+			// what lies behind the recorded deviation (raw flag only, value equal)
+			if d2, x2, y2 := c08diffTol(f.t1, t3, f.t1.Name); d2 != "" {
+				report(keyOf(x2, y2), "after FormatFiles the file parses to a different tree (beyond the raw flag of a multi-line raw string): "+d2)
+			} else {
+				same = !c08contains(f.t1, c08isRawMultilineInterp)
+			}
+		}
+		// the file does the same as before
+		if f.desc.Eval && same {
+			v1, v2 := c08evalPair(f.desc.Source, string(b))
+			c.Dist["formatfiles_evaluated"]++
+			if v1 != v2 {
+				k := "formatfiles-eval-differs"
+				if c08contains(f.t1, c08isTimesDiv) {
+					k = "times-div-brackets"
+				} else if c08contains(f.t1, c08isReturnOperand) {
+					k = "return-left-operand"
+				}
+				report(k, fmt.Sprintf("before FormatFiles evaluating the file gives %s, afterwards (%q) %s", v1, string(b), v2))
+			}
 		}
 	}
 }
@@ -926,7 +976,7 @@ var c08pairSecond = []string{
 }
 
 func runC08(c *Ctx) error {
-	c.Rule = "sources by family — expr: every operator of parser.astNodeMap (read from the implementation's tables) nested under every other on either side with/without parentheses (exhaustive depth 2) plus seeded random fully parenthesised trees of depth <= 4 in 11 contexts; stmt: every block-bearing statement kind filled with every leaf statement, every ordered pair of leaves, and every container (depth 2); pair: 17 first statements x 17 second statements starting with - + ( [ not, a string, a number, { or an identifier, separated by \";\" at top level, in a block, in a function body and with a blank line, also with /* */ and # comments in front of the second statement and strings / trailing comments containing */ /* # ; further right; container: lists/maps/calls with 0..7 elements; string: values over {a,\",',\\,newline,tab,{{1+2}},{{,}},space,ä,€} up to length 3 in quoted/single-quoted/raw forms, at top level and inside a block; comment: a post or pre comment inserted before every token of 10 base programs, and post/pre comments after/before every element (also between element and separator, separator leading or trailing, one line or one element per line) of lists with 1..7 elements, maps with 1..4 entries, calls with 1..6 arguments and parameter lists with 1..5 presets, the commented element and its successor drawn from {n, -n, +n, not x, string, (a + b), list, map, identifier, call}; comment texts also drawn from a pool with the control characters 0x01-0x08 0x0b 0x0c 0x0e-0x1f 0x7f (0x01 followed by code at every position), * / /* # quotes {{ ; and code-looking text; every comment position also with empty and whitespace-only comments (/**/, /* */, /*<nl>*/, #<nl>, # <nl>); corpus: .ecal files and ecal.md code blocks of the repository. Oracles: re-parse equal up to positions/comments, idempotence, equal evaluation result, FormatFiles on a scratch directory; model: token sequence of the real output vs the Coq printer model. Non-trivial = the tree has children; distinct by source text"
+	c.Rule = "sources by family — expr: every operator of parser.astNodeMap (read from the implementation's tables) nested under every other on either side with/without parentheses (exhaustive depth 2) plus seeded random fully parenthesised trees of depth <= 4 in 11 contexts; stmt: every block-bearing statement kind filled with every leaf statement, every ordered pair of leaves, and every container (depth 2); pair: 17 first statements x 17 second statements starting with - + ( [ not, a string, a number, { or an identifier, separated by \";\" at top level, in a block, in a function body and with a blank line, also with /* */ and # comments in front of the second statement and strings / trailing comments containing */ /* # ; further right; container: lists/maps/calls with 0..7 elements; string: values over {a,\",',\\,newline,tab,{{1+2}},{{,}},space,ä,€} up to length 3 in quoted/single-quoted/raw forms, at top level and inside a block; comment: a post or pre comment inserted before every token of 10 base programs, and post/pre comments after/before every element (also between element and separator, separator leading or trailing, one line or one element per line) of lists with 1..7 elements, maps with 1..4 entries, calls with 1..6 arguments and parameter lists with 1..5 presets, the commented element and its successor drawn from {n, -n, +n, not x, string, (a + b), list, map, identifier, call}; comment texts also drawn from a pool with the control characters 0x01-0x08 0x0b 0x0c 0x0e-0x1f 0x7f (0x01 followed by code at every position), * / /* # quotes {{ ; and code-looking text; every comment position also with empty and whitespace-only comments (/**/, /* */, /*<nl>*/, #<nl>, # <nl>); bytes: multi-line raw strings r\"..\" / r'..' over a byte-level value pool (line breaks, blanks and tabs before / after a break, form feed, vertical tab, explicit CR and CR LF, byte order mark, U+0085, U+2028, {{ }}, backslash, comment openers, code-looking text; fixed values plus seeded random ones) in 17 contexts (program result, assignment, len, concatenation, function result, map / list element, comparison, three raw strings in one file, blocks with space and tab indentation, multi-line list, between comments, call argument, raise, sink) and the same values inside block and line comments in 8 positions, every program rendered as a file in 18 conventions applied to the whole text (LF, CR LF, CR LF with final break, mixed even / odd, only the second / only the last break CR LF, CR only, LF CR, CR CR LF, byte order mark with LF / CR LF, trailing blanks with LF / CR LF, form feed, vertical tab, U+0085, U+2028), plus the comment base programs and the repository's programs in every convention; contents that parse run through all oracles and FormatFiles, contents the parser rejects must be left byte-identical by FormatFiles; corpus: .ecal files and ecal.md code blocks of the repository. Oracles: re-parse equal up to positions/comments, idempotence, equal evaluation result, FormatFiles on a scratch directory (tree of the rewritten file equal incl. string values, also behind the recorded raw-flag deviation of multi-line raw strings; equal evaluation result of the file before / after; unparsable contents untouched); model: token sequence of the real output vs the Coq printer model. Non-trivial = the tree has children; distinct by source text"
 	c.BeginCases("From Coq Require Import String.\nFrom Ecal Require Import Common.Bytes Common.Ast gen.Tokens Run.RunC08.\nOpen Scope string_scope.", "case", 120)
 	s := &c08state{c: c, seenTree: map[string]bool{}}
 
@@ -942,8 +992,10 @@ func runC08(c *Ctx) error {
 		s.files = []c08file{}
 		if t1, _ := c08parse(d.Source); t1 != nil {
 			if p, r := c08print(t1); !(r.Panicked || r.TimedOut || r.Err != nil) {
-				s.files = append(s.files, c08file{d, t1, p})
+				s.files = append(s.files, c08file{desc: d, t1: t1, p: p})
 			}
+		} else {
+			s.untouched = []c08case{d}
 		}
 		s.formatFiles()
 		return nil
@@ -1136,6 +1188,9 @@ func runC08(c *Ctx) error {
 	for _, src := range c08corpus() {
 		s.one(c08case{"corpus", src, false}, true)
 	}
+	// byte-level file contents: CR LF / CR / mixed endings, byte order mark, blanks, form feeds
+	// inside multi-line raw strings and comments (c08_bytes.go; after the corpus: its files go to FormatFiles on top of the cap of the other families)
+	s.byteLevel()
 	s.formatFiles()
 	c.Exhaustive = false
 	return nil
